@@ -15,6 +15,7 @@ type heldLock struct {
 	write bool
 	class string
 	site  string
+	since int64 // value of the event counter at acquisition
 }
 
 type waitInfo struct {
@@ -259,7 +260,7 @@ func lockHook(op string, mu interface{}) {
 			class, site = lockSite()
 		}
 		delete(lockmon.waiting, g)
-		lockmon.held[g] = append(lockmon.held[g], heldLock{mu: mu, write: op == "lock!", class: class, site: site})
+		lockmon.held[g] = append(lockmon.held[g], heldLock{mu: mu, write: op == "lock!", class: class, site: site, since: lockmon.events})
 		if class == "DB" && len(lockmon.acq) < 400 {
 			lockmon.acq = append(lockmon.acq, fmt.Sprintf("%d%s", g, map[bool]string{true: "W", false: "R"}[op == "lock!"]))
 		}
@@ -339,4 +340,20 @@ func lockmonLight() {
 	lockmon.mu.Lock()
 	lockmon.light = true
 	lockmon.mu.Unlock()
+}
+
+// lockmonWriteHolders lists "goroutine/since/class@site" for every mutex held
+// in write mode right now.
+func lockmonWriteHolders() (out []string) {
+	lockmon.mu.Lock()
+	defer lockmon.mu.Unlock()
+	for g, hs := range lockmon.held {
+		for _, h := range hs {
+			if h.write {
+				out = append(out, fmt.Sprintf("g%d/%d/%s@%s", g, h.since, h.class, h.site))
+			}
+		}
+	}
+	sort.Strings(out)
+	return
 }
